@@ -15,6 +15,7 @@
 package ggql
 
 import (
+	"math"
 	"strconv"
 )
 
@@ -41,9 +42,18 @@ func (*floatScalar) CoerceIn(v interface{}) (interface{}, error) {
 	case nil:
 		// remains nil
 	case float64:
-		v = float32(tv)
+		// Values beyond the float32 range become +/-Inf when converted.
+		if f := float32(tv); math.IsNaN(tv) || math.IsInf(float64(f), 0) {
+			v = nil
+			err = newCoerceErr(tv, "Float")
+		} else {
+			v = f
+		}
 	case float32:
-		// ok as is
+		if math.IsNaN(float64(tv)) || math.IsInf(float64(tv), 0) {
+			v = nil
+			err = newCoerceErr(tv, "Float")
+		}
 	case int32:
 		v = float32(tv)
 	case int64:
